@@ -392,7 +392,11 @@ def parent_main(a):
             seen_known[k] = seen_known.get(k, 0) + v["count"]
     for k, n in sorted(seen_known.items()):
         print(f"KNOWN-FINDING: property={pid} {open_here.get(k, k)} [key={k}; {n} generated cases hit it this run and were excluded]")
+    printed = set()
     for (name, mode, msg, path) in violations:
+        if path in printed:
+            continue
+        printed.add(path)
         print(f"  violation in {name} [{mode}]: {msg}")
         print(f"VIOLATION property={pid} replay={path}")
     _cleanup(tmpdir, keep=bool(errors))
